@@ -24,10 +24,11 @@ EXTENDS Naturals, Sequences, CRC
 
 VARIABLES ev,          \* the last event [bytes, nf, sd, frame, micro]
           frame, micro,
+          wf,          \* ghost: the last event was a well-formed SOF (cached: the CRC5 is costly for TLC)
           f0, m0,      \* ghost: initial values
           hist         \* ghost: frame numbers of the well-formed SOFs so far
 
-vars == <<ev, frame, micro, f0, m0, hist>>
+vars == <<ev, frame, micro, wf, f0, m0, hist>>
 
 SofPidByte == 5 + 16 * (15 - 5)          \* PID 0101, check nibble 1010
 WellFormedSof(b) == Len(b) = 3 /\ b[1] = SofPidByte /\ Usb2TokenOk(b[2], b[3])
@@ -60,27 +61,28 @@ Failing(e) ==
 Step(e) == /\ ev' = e
            /\ frame' = e.frame
            /\ micro' = e.micro
-           /\ hist' = IF WellFormedSof(e.bytes) THEN Append(hist, FrameOf(e.bytes)) ELSE hist
+           /\ wf' = WellFormedSof(e.bytes)
+           /\ hist' = IF wf' THEN Append(hist, FrameOf(e.bytes)) ELSE hist
            /\ UNCHANGED <<f0, m0>>
 
 NoEv == [bytes |-> <<>>, nf |-> 0, sd |-> 0, frame |-> 0, micro |-> 0]
 
-InitWith(f, m) == /\ frame = f /\ micro = m /\ f0 = f /\ m0 = m /\ hist = <<>>
+InitWith(f, m) == /\ frame = f /\ micro = m /\ wf = FALSE /\ f0 = f /\ m0 = m /\ hist = <<>>
                   /\ ev = [NoEv EXCEPT !.frame = f, !.micro = m]
 
 -----------------------------------------------------------------------------
 (* Prop *)
 Full == <<f0>> \o hist                       \* reported numbers over time, starting with the initial one
-RECURSIVE TrailRun(_)
-TrailRun(s) == IF Len(s) <= 1 THEN Len(s)
-               ELSE IF s[Len(s)] = s[Len(s) - 1] THEN 1 + TrailRun(SubSeq(s, 1, Len(s) - 1)) ELSE 1
+RECURSIVE TrailRunAt(_, _)
+TrailRunAt(s, k) == IF k <= 1 THEN k ELSE IF s[k] = s[k - 1] THEN 1 + TrailRunAt(s, k - 1) ELSE 1
+TrailRun(s) == TrailRunAt(s, Len(s))          \* length of the run of equal elements at the end of s
 
 \* the reported frame number is that of the last well-formed SOF
 FrameIsLastSof == frame = Full[Len(Full)]
 \* the microframe number counts the SOFs that repeated the current frame number since it last changed
 MicroCountsRepeats == micro = (IF TrailRun(Full) = Len(Full) THEN m0 + Len(hist) ELSE TrailRun(Full) - 1) % 8
 \* the new-frame strobe of the last event: exactly when it was a well-formed SOF whose number differs from the one before
-StrobeIffChange == (ev.nf = 1) <=> (WellFormedSof(ev.bytes) /\ Len(Full) >= 2 /\ Full[Len(Full)] # Full[Len(Full) - 1])
-StrobeOnce == ev.nf \in {0, 1} /\ ev.sd \in {0, 1} /\ (ev.sd = 1 <=> WellFormedSof(ev.bytes))
+StrobeIffChange == (ev.nf = 1) <=> (wf /\ Len(Full) >= 2 /\ Full[Len(Full)] # Full[Len(Full) - 1])
+StrobeOnce == ev.nf \in {0, 1} /\ ev.sd \in {0, 1} /\ (ev.sd = 1 <=> wf)
 TypeOK == frame \in 0..2047 /\ micro \in 0..7
 =============================================================================
